@@ -66,7 +66,7 @@ var defaultInitAllow = []string{
 	"github.com/flamego/flamego/inject", "github.com/flamego/flamego/internal/vx",
 	"strings", "bytes", "unicode", "unicode/utf8", "net/url", "regexp", "regexp/syntax",
 	"strconv", "sort", "math/bits", "io", "internal/bytealg", "github.com/pkg/errors",
-	"path", "internal/stringslite",
+	"path", "internal/stringslite", "encoding/base64", "internal/filepathlite", "io/fs", "internal/oserror", "path/filepath",
 }
 
 type Job struct {
@@ -125,6 +125,7 @@ type JobResult struct {
 	SetupError     string            `json:"setup_error,omitempty"`
 	StoreMon       map[string]int    `json:"storemon,omitempty"`
 	Tasks          int               `json:"tasks,omitempty"`
+	UninitGlobals  []string          `json:"uninit_globals,omitempty"`
 }
 
 type Interp struct {
@@ -178,6 +179,13 @@ func NewInterp(p *Program, root string) (*Interp, error) {
 			}
 		}()
 		call(i, nil, token.NoPos, mainpkg.Func("init"), nil)
+		// allow-listed packages that are only imported through packages whose
+		// initialisers are skipped (each init is guarded, so this is idempotent)
+		for _, path := range defaultInitAllow {
+			if pk := p.Pkgs[path]; pk != nil && pk.Func("init") != nil {
+				call(i, nil, token.NoPos, pk.Func("init"), nil)
+			}
+		}
 	}()
 	if err != nil {
 		return nil, err
@@ -287,6 +295,10 @@ func (in *Interp) RunJob(job Job, shed func([][]Decision)) (res JobResult) {
 		sort.Strings(exts)
 		res.Fns = fns
 		res.Externals = exts
+		for k := range ex.UninitGlobals {
+			res.UninitGlobals = append(res.UninitGlobals, k)
+		}
+		sort.Strings(res.UninitGlobals)
 		if ex.StoreMon != nil {
 			res.StoreMon = map[string]int{"stores": ex.StoreMon.Stores, "shared_synchronised": ex.StoreMon.SharedStores, "atomic": ex.StoreMon.atomicStores, "regions": len(ex.StoreMon.regions)}
 		}
@@ -439,6 +451,7 @@ func MergeResults(acc *JobResult, r JobResult, keep int) {
 	acc.Reached = unionSorted(acc.Reached, r.Reached)
 	acc.Fns = unionSorted(acc.Fns, r.Fns)
 	acc.Externals = unionSorted(acc.Externals, r.Externals)
+	acc.UninitGlobals = unionSorted(acc.UninitGlobals, r.UninitGlobals)
 	acc.Inconclusive = append(acc.Inconclusive, r.Inconclusive...)
 	if len(acc.Inconclusive) > 20 {
 		acc.Inconclusive = acc.Inconclusive[:20]
